@@ -18,7 +18,7 @@ package context
 //@   props C03 C15 C19
 //@   entry nolocks
 //@   guard Vars by dc.lockVars
-//@   ensures [C03] injectedfirst: !strContains(variable, ".") && (variable in dc.base) ==> result.1 == nil && result.0 == dc.base[variable]
+//@   ensures [C03,C15] injectedfirst: !strContains(variable, ".") && (variable in dc.base) ==> result.1 == nil && result.0 == dc.base[variable]
 //@   ensures [C15] localsecond: !strContains(variable, ".") && !(variable in dc.base) && Vars != nil && (variable in Vars) ==> result.1 == nil && result.0 == Vars[variable]
 //@   ensures [C15] notfound: !strContains(variable, ".") && !(variable in dc.base) && (Vars == nil || !(variable in Vars)) ==> result.1 != nil && result.0 == RV_zero()
 //@   ensures [C03] field1: strContains(variable, ".") && splitCount(variable, ".") == 2 && ((splitPart(variable, ".", 0) in dc.base) || (Vars != nil && (splitPart(variable, ".", 0) in Vars))) ==> result.1 == nil && result.0 == fieldOf(ite(splitPart(variable, ".", 0) in dc.base, dc.base[splitPart(variable, ".", 0)], Vars[splitPart(variable, ".", 0)]), splitPart(variable, ".", 1))
